@@ -11,13 +11,15 @@ LEVEL = "exploration"
 RULE = ("valid abstract messages of every kind, each constrained field replaced in turn by absent / empty / wrong-case / "
         "foreign-vocabulary / Python-internal-looking / padded / random strings, every required attribute removed, children "
         "replaced by every other part kind, unknown tags, attributes named like constructor parameters, non-ASCII digits and "
-        "malformed numbers; written as XML text and given to IndiMessage.from_string; thorough adds random character-level "
+        "malformed numbers; after importing EVERY module of the library, every tag the part / message registries know is offered as a child of "
+        "every vector kind it does not belong to (and every non-protocol message tag as a message); written as XML text and given to IndiMessage.from_string; thorough adds random character-level "
         "mutations of valid wire text. A raise is always acceptable; a returned message is judged by an independent "
         "DTD-conformance validator over its public attributes. non-trivial = the input is non-conformant by that validator; "
         "distinct = hash(XML text)")
 ASSUMPTIONS = ["an absent number value is tolerated (drivers publish unset numbers); min/max/step/format are unconstrained",
                "the top-level oneLight kind the library registers is treated as a kind with a State value"]
-REQUIRED_EVENTS = ["hostile_inputs", "rejected", "parsed_and_validated"]
+QUICK_SHARDS = 2
+REQUIRED_EVENTS = ["hostile_inputs", "rejected", "parsed_and_validated", "registry_audit_inputs", "library_modules_imported"]
 
 PYTHONISH = ["None", "indi.message.const", "__main__", "State", "__doc__", "__module__", "builtins", "const",
              "indi.message", "True", "False", "0", "1", "<class 'str'>", "object", "NoneType"]
@@ -240,7 +242,59 @@ def one_case(ctx, case):
             ctx.case(text, nontrivial=True)
 
 
+def registry_audit(ctx):
+    """The parser resolves tags through the classes that EXIST in the process.  Import every module of the library, then offer
+    every tag the registries know beyond the protocol's own, as a message and as a child of every vector kind."""
+    import importlib
+    import pkgutil
+    import indi
+    import indi.message as M
+    from indi.message.base import IndiMessagePart
+    for mi in pkgutil.walk_packages(indi.__path__, "indi."):
+        try:
+            importlib.import_module(mi.name)
+            ctx.count("library_modules_imported")
+        except Exception:
+            ctx.count("library_modules_not_importable")
+    part_tags, msg_tags = set(), set()
+    for c in IndiMessagePart._all_subclasses():
+        try:
+            part_tags.add(c.tag_name())
+        except Exception:
+            pass
+    for c in M.IndiMessage.all_message_classes():
+        try:
+            msg_tags.add(c.tag_name())
+        except Exception:
+            pass
+    ctx.notes["tags_known_to_the_part_registry"] = sorted(part_tags)
+    ctx.notes["tags_known_to_the_message_registry"] = sorted(msg_tags)
+    extra_parts = sorted(part_tags - set(G.PARTS))
+    extra_msgs = sorted(msg_tags - set(G.ALL_TAGS) - {"oneLight"})
+    attrs = 'name="x" size="3" format=".b" min="0" max="1" step="1" label="l"'
+    n = 0
+    for tag in extra_parts + sorted(set(G.PARTS)):
+        for text in ("On", "Ok", "1", "QUJD", ""):
+            for vtag in [t for t in G.ALL_TAGS if t.endswith("Vector")]:
+                if tag in G.PARTS and G.GRAMMAR[vtag]["child"] == tag:
+                    continue
+                vattrs = 'device="D" name="P" state="Ok" perm="rw" rule="AnyOfMany"'
+                xml = f'<{vtag} {vattrs}><{tag} {attrs}>{text}</{tag}></{vtag}>'
+                n += 1
+                ctx.count("hostile_inputs")
+                judge(ctx, xml, f"registry-part-tag:{tag}", {"i": -1000 - n, "mode": "text", "text": xml})
+    for tag in extra_msgs:
+        for body in ("", "On", f'<oneText name="x">v</oneText>'):
+            xml = f'<{tag} device="D" name="P" state="Ok" perm="rw" version="1.7" uid="u">{body}</{tag}>'
+            n += 1
+            ctx.count("hostile_inputs")
+            judge(ctx, xml, f"registry-message-tag:{tag}", {"i": -5000 - n, "mode": "text", "text": xml})
+    ctx.count("registry_audit_inputs", n)
+
+
 def run(ctx):
+    if ctx.mine(0):
+        registry_audit(ctx)
     reps = 2 if not ctx.thorough else 200
     i = 0
     for rep in range(reps):
